@@ -235,6 +235,12 @@ fn main() {
    let uflen = arg("uflen", 4) as usize;
    let nrandom = arg("random", 2000);
    let which = arg("which", 3); // bit 1: trrel_uf, bit 2: uf
+   // --shard=i --nshards=n: this process takes the histories whose running index is i modulo n (every history is generated
+   // from its own index, so the union over the shards is the same set of histories whatever n is)
+   let shard = arg("shard", 0) as u64;
+   let nshards = arg("nshards", 1).max(1) as u64;
+   let mut hidx = 0u64;
+   macro_rules! mine { () => {{ hidx += 1; (hidx - 1) % nshards == shard }} }
    let mut rng = Rng::new(seed);
    let mut st = Stats { histories: 0, histories_ge2: 0, ops: 0, queries: 0, viol: vec![] };
    let n = 4usize;
@@ -260,6 +266,7 @@ fn main() {
       for l in 1..=len {
          let total = 16usize.pow(l as u32);
          for code in 0..total {
+            if !mine!() { continue; }
             let mut c = code;
             let hist: Vec<(usize, usize)> = (0..l).map(|_| {
                let p = c % 16;
@@ -270,7 +277,9 @@ fn main() {
             exhaustive += 1;
          }
       }
-      for _ in 0..nrandom {
+      for ri in 0..nrandom {
+         if !mine!() { continue; }
+         let mut rng = Rng::new(seed.wrapping_mul(1000003).wrapping_add(ri as u64 * 2 + 1));
          let dom = 3 + rng.below(38);
          let l = 10 + rng.below(if dom > 12 { 290 } else { 60 });
          let mut hist = vec![];
@@ -303,6 +312,7 @@ fn main() {
       for l in 1..=uflen {
          let total = alphabet.len().pow(l as u32);
          for code in 0..total {
+            if !mine!() { continue; }
             let mut c = code;
             let hist: Vec<UfOp> = (0..l).map(|_| {
                let o = alphabet[c % alphabet.len()];
@@ -313,7 +323,9 @@ fn main() {
             exhaustive += 1;
          }
       }
-      for _ in 0..nrandom {
+      for ri in 0..nrandom {
+         if !mine!() { continue; }
+         let mut rng = Rng::new(seed.wrapping_mul(1000003).wrapping_add(ri as u64 * 2 + 2));
          let dom = 3 + rng.below(30);
          let l = 10 + rng.below(120);
          let hist: Vec<UfOp> = (0..l).map(|_| match rng.below(4) {
